@@ -1734,10 +1734,13 @@ impl Evaluator {
         match self.context.first_context_data().unwrap().parms().scheme() {
             SchemeType::BFV | SchemeType::BGV => 
                 panic!("[Invalid argument] Rescale is only supported for CKKS scheme"),
-            SchemeType::CKKS => 
-                while encrypted.parms_id() != parms_id {
-                    self.mod_switch_scale_to_next_internal(encrypted, destination);
-                },
+            SchemeType::CKKS => {
+                *destination = encrypted.clone();
+                while destination.parms_id() != parms_id {
+                    let cloned = destination.clone();
+                    self.mod_switch_scale_to_next_internal(&cloned, destination);
+                }
+            },
             _ => panic!("[Invalid argument] Unsupported scheme")
         }
     }
